@@ -248,7 +248,7 @@ def run(ctx):
     ctx.rule = ("second wave: 120 (thorough 2000) pairs of csrmb cases - updateCSR on ONE object with nb = 1..3 bunches, spacing zero (the program's "
                 "radiation field) and non-zero, buckets in any order, after 0..3 earlier wakePotential/padBunchProfiles/updateCSR calls with other profiles; "
                 "for EVERY bunch: spectrum row and power bit-identical to a fresh single-bunch object given that bunch alone, power = delta_f * sum of its "
-                "own row, Parseval/signs/cutoff per bunch, and (6 pairs, thorough 100) the extracted model of that bunch alone. First wave: "
+                "own row, Parseval/signs/cutoff per bunch, and (6 pairs, thorough 50) the extracted model of that bunch alone. First wave: "
                 "csr cases on ElectricField through its public API, ONE bunch per object and a fresh object per call: N from the C06 list, n 8..32, bucket 0..2, "
                 "impedances passive-random / smooth passive / random sign, profiles random/gauss/impulse/signed/integer; each case "
                 "once with the cutoff off and once with a cutoff frequency inside the axis. Correspondence: getCSRSpectrum and "
@@ -260,7 +260,7 @@ def run(ctx):
     pairs = dc.gen_csr_cases(ctx, 150 if ctx.quick() else 3000, sizes)
     dis = run_pairs(ctx, pairs, 20 if ctx.quick() else 300)
     mpairs = dc.gen_csrmb_cases(ctx, 120 if ctx.quick() else 2000, sizes)
-    dis += run_multibunch(ctx, mpairs, 6 if ctx.quick() else 100)
+    dis += run_multibunch(ctx, mpairs, 6 if ctx.quick() else 50)
     ctx.sample(mpairs[0][0].describe())
     ctx.sample(pairs[0][0].describe())
     ctx.sample(pairs[0][1].describe())
